@@ -2,7 +2,7 @@
     models compute on the inputs the checks use (nesting bombs, length bombs, boundary announcements). *)
 From RB Require Import Base.Prelude Sig.Types Sig.Parser Sig.ParserProofs Sig.Validator Sig.ValidatorProofs
   Wire.Bytes Wire.Align Wire.Text Wire.Value Wire.SpecEnc Wire.Marshal Wire.Decode Wire.Unmarshal Wire.HasSig Wire.Body
-  Wire.Relabel Wire.MarshalProofs Wire.Limits Wire.LimitsProofs Wire.LimitsBounds Wire.LimitsSend Wire.ParserTotal.
+  Wire.Relabel Wire.MarshalProofs Wire.DecodeSoundLemmas Wire.Derive Wire.Enums Wire.EnumsTotal Wire.Limits Wire.LimitsProofs Wire.LimitsBounds Wire.LimitsSend Wire.LimitsKnown Wire.ParserTotal.
 From RB Require Conn.Recv Wire.LimitsRecv.
 
 (* n variants in each other around a variant holding the byte 7: n+1 containers *)
@@ -112,3 +112,40 @@ Example aay_marshals : snd (marshal_t false aay {| mbuf := [9]; mfds := 0 |}) = 
   /\ snd (marshal_p false 0 aay {| mbuf := [9]; mfds := 0 |}) = true
   /\ arrays_within false 1 aay = true.
 Proof. vm_compute. auto. Qed.
+
+(* C18_recv_reserve: its hypotheses hold together - 16 bytes buffered that announce a 32 byte message, the peer's next 5 bytes
+   queued - and one refill grows the buffer to exactly the announced 32 bytes *)
+Definition st16 : Recv.rstate := {| Recv.buf := first16 [8; 0; 0; 0] [5; 0; 0; 0]; Recv.filled := 16; Recv.fds_in := [] |}.
+Example recv_reserve_hyps :
+  Recv.filled st16 <= len (Recv.buf st16) /\ len (Recv.buf st16) <= MAX_MESSAGE /\ RecvLists.segs_ok [([1; 2; 3; 4; 5], [])]
+  /\ Recv.bytes_needed st16 = Recv.ROk 32.
+Proof. repeat split; try (vm_compute; (discriminate || reflexivity)). constructor; [discriminate|constructor]. Qed.
+Example recv_reserve_run :
+  match Recv.refill_buffer st16 [([1; 2; 3; 4; 5], [])] 32 (Recv.KDeliver 100) with
+  | (Recv.ROk _, st', q') => len (Recv.buf st') = 32 /\ Recv.filled st' = 21 /\ q' = []
+  | _ => False
+  end.
+Proof. vm_compute. auto. Qed.
+
+(* the send clause: a value of a Rust type three containers deep is outside the known class; the witness inside it *)
+Example vfits_small : vfits (EArray (EStruct [EBase BByte; EVar (EBase BString)])) 
+                        (VArray (TStruct [TBase BByte; TVariant]) [VStruct [VBase BByte 1; VVariant (TBase BString) (VText BString [97])]]) = true
+  /\ edepth (EArray (EStruct [EBase BByte; EVar (EBase BString)])) = 3.
+Proof. split; vm_compute; reflexivity. Qed.
+Example drec_is_the_harness_value : vdepth (drec 2) = 5 /\ ty_of (drec 2) = TVariant.
+Proof. split; vm_compute; reflexivity. Qed.
+
+(* enum decoders: a derived enum with the cases A(u8), B { x: String, y: u32 }, D(Vec<(u8, String)>) satisfies the hypothesis
+   of C04_total_enums and decodes / refuses as computed *)
+Definition de1_cases : list ecase :=
+  [CSingle (RBase BByte); CFields true [RBase BString; RBase BUint32]; CSingle (RArray (RDerived [RBase BByte; RBase BString]))].
+Example de1_ok : Forall (fun k => rty_ok (case_rty k)) de1_cases.
+Proof. repeat constructor; vm_compute; lia. Qed.
+Example de1_decodes :
+  match derive_enum_unmarshal 66 false de1_cases {| ubuf := [1; 121; 0; 7]; uoff := 0; unfds := 0; udepth := 0 |} with
+  | Ok (ECase 0 (VBase BByte 7), c) => uoff c = 4
+  | _ => False
+  end.
+Proof. vm_compute. reflexivity. Qed.
+Example de1_unknown_case : derive_enum_unmarshal 66 false de1_cases {| ubuf := [1; 116; 0; 0; 0; 0; 0; 0; 1; 0; 0; 0; 0; 0; 0; 0]; uoff := 0; unfds := 0; udepth := 0 |} = Err.
+Proof. vm_compute. reflexivity. Qed.
